@@ -119,6 +119,31 @@ Theorem C12_link_probe_denied : forall v l,
 Proof. exact link_probe_denied. Qed.
 Print Assumptions C12_link_probe_denied.
 
+(* the existence probe of a " (deleted)"-marked target is three-way: exists / refused /
+   fails with any other errno (ENOENT, ESRCH, ENOTDIR, ELOOP, ENAMETOOLONG, EIO, EOVERFLOW,
+   ESTALE, anything): the answer does not depend on WHICH errno said "not there" ... *)
+Theorem C12_link_probe_errno_irrelevant : forall v raw e1 e2,
+  pl_readlink v (LTarget raw (SFails e1)) = pl_readlink v (LTarget raw (SFails e2)).
+Proof. exact probe_errno_irrelevant. Qed.
+Print Assumptions C12_link_probe_errno_irrelevant.
+
+(* ... it is never an exception, for exe() and cwd() alike, whatever bytes the target holds
+   (NUL garbage included) ... *)
+Theorem C12_link_probe_failure_is_an_answer : forall v raw e,
+  exists p, pl_readlink v (LTarget raw (SFails e)) = Val p
+            /\ (v_exe v = LTarget raw (SFails e) -> pl_exe v = Val p)
+            /\ (v_cwd v = LTarget raw (SFails e) -> pl_cwd v = Val p).
+Proof. exact probe_failure_is_an_answer. Qed.
+Print Assumptions C12_link_probe_failure_is_an_answer.
+
+(* ... and for an unlinked target it is the path with the stale marker stripped *)
+Theorem C12_link_cleanup_any_errno : forall v path garbage e,
+  nul_free path = true -> path <> [] ->
+  pl_readlink v (to_link {| l_path := path; l_unlinked := true; l_garbage := garbage; l_lit_exists := false; l_errno := e |})
+  = Val path.
+Proof. exact link_cleanup_any_errno. Qed.
+Print Assumptions C12_link_cleanup_any_errno.
+
 (* the decision table of a link that is not given (ENOENT / ESRCH), in one statement:
    live -> '', zombie -> ZombieProcess, stat absent -> NoSuchProcess, probe refused ->
    AccessDenied; for _readlink itself, for cwd(), and for the front-end exe() in the rows
